@@ -22,9 +22,31 @@ class ScalarShape(NdContract):
         shape = (n, 1) if self.col else (n,)
         st.assume(n >= 0)
         st.env["y_true"] = Nd("y_true", shape, "list")
-        st.env["y_pred"] = Nd("y_pred", shape, "list")
+        st.env["y_pred"] = Nd("y_pred", shape, "list", wdtype="user")
         st.env["pos_label"] = Int("pos_label")
-        st.env["sample_weight"] = Nd("sample_weight", (n,), "list") if self.weighted else None
+        st.env["sample_weight"] = Nd("sample_weight", (n,), "list", wdtype="user") if self.weighted else None
+
+    def on_call(self, eng, st, node, name, recv, args, kwargs):
+        """dtype width of the weighted sum (the one place where A1 'machine arithmetic = real arithmetic' is NOT assumed for these two functions, because
+        the repository once broke there: fix dbf340a).  `wdtype` is carried along every derived array: "user" = still the caller's dtype (may be uint8 / int8:
+        np.dot of two narrow integer arrays wraps around), "float64" = widened by astype(float) / built by np.ones.  np.dot(a, w) with the caller's weights is
+        accepted only when at least one operand is known to be float64; operands of unknown history generate no obligation."""
+        if name == "numpy.dot" and len(args) == 2 and all(is_nd(a) for a in args) and self.weighted:
+            kinds = [getattr(a, "wdtype", None) for a in args]
+            if all(k is not None for k in kinds):          # both histories known: decided either way (an operand of unknown history generates no obligation)
+                eng.oblige(st, "weighted_sum_is_not_accumulated_in_the_callers_possibly_narrow_integer_dtype", BoolVal("float64" in kinds), "dtype", node)
+        r = super().on_call(eng, st, node, name, recv, args, kwargs)
+        if name == "astype" and is_nd(r) and "astype(float)" in str(r.name):
+            r.wdtype = "float64"
+        if name == "numpy.ones" and is_nd(r):
+            r.wdtype = "float64"
+        return r
+
+    def on_compare(self, eng, st, node, op, a, b):
+        r = super().on_compare(eng, st, node, op, a, b)
+        if is_nd(r) and (getattr(a, "wdtype", None) or getattr(b, "wdtype", None)):
+            r.wdtype = "bool"
+        return r
 
     def post(self, eng, st, status, value):
         if status == "raise":
@@ -41,11 +63,21 @@ class ScalarShape(NdContract):
         import numpy as np
         import fairlearn.metrics as fm
         from ..pyvc.util import model_int
+        f = getattr(fm, self.function)
+        if "narrow_integer_dtype" in ob.name:
+            # the failed obligation is about dtype width, not about n: replay with the narrowest weights numpy offers
+            yp, w = np.ones(100, dtype=np.uint8), np.full(100, 3, dtype=np.uint8)
+            try:
+                got = float(f(yp, yp, sample_weight=w))
+            except Exception as ex:          # noqa: BLE001
+                got = f"{type(ex).__name__}: {ex}"[:80]
+            return {"confirmed": got != 1.0, "key": f"C14:{self.function}:narrow-weight-dtype",
+                    "what": f"{self.function}(ones(100, uint8), ones(100, uint8), sample_weight=full(100, 3, uint8)) = {got!r}; every row is selected, the weighted rate is 1.0",
+                    "replay": {"function": self.function, "y_pred": "np.ones(100, dtype=np.uint8)", "sample_weight": "np.full(100, 3, dtype=np.uint8)", "got": got}}
         k = max(model_int(r.model, "n", 1), 0)
         yp = [1] * k
         yp = [[v] for v in yp] if self.col else yp
         w = [2.0] * k if self.weighted else None
-        f = getattr(fm, self.function)
         try:
             out = f(yp, yp, sample_weight=w)
             got = ("shape", list(np.shape(out)))
